@@ -426,6 +426,12 @@ func runC05(c *Ctx) Result {
 		}
 	case 4: // string payloads for quote / unquote / utf8 / html
 		in = strings.Repeat(genStrs[g.d(len(genStrs))], 1+g.d(5)) + c05Frags[g.d(len(c05Frags))]
+		if g.d(3) == 0 {
+			// dense in characters whose quoted form is 6 bytes (\u00XX) or that need HTML / UTF-8
+			// repair: the output outgrows its buffer several times within one string
+			dense := []string{"\x01", "a\x02\x03", "\x1f\"", "<&>", "\xe2\x80\xa8", "\xff", "\\\x00", "\x7f\x10\n"}[g.d(8)]
+			in = strings.Repeat(dense, 1+g.d(60)) + in[:g.d(len(in)+1)]
+		}
 	default:
 		in = g.Container()
 		if g.d(3) == 0 {
